@@ -44,7 +44,7 @@ SIGNATURES = {}
 
 NAMES = ["d0", "d1", "d2", "x"]
 PATHS = ["a.csv", "b.csv", "book.xlsx", "sub/c.csv"]
-SHEETS = [None, "s1", "s2"]
+SHEETS = [None, "s1", "s2", "Sheet1"]
 
 
 def plan(tier):
@@ -58,7 +58,7 @@ def histories(draw):
     nmodels = draw(st.integers(1, 2))
     ops = []
     for _ in range(draw(st.integers(8, 26))):
-        k = draw(st.integers(0, 16))
+        k = draw(st.integers(0, 17))
         mi = draw(st.integers(0, nmodels - 1))
         where = draw(st.sampled_from(["A", "A", "A", "B", "C", ""]))     # B derives from A; "" = model level
         name = draw(st.sampled_from(NAMES))
@@ -88,6 +88,15 @@ def histories(draw):
             ops.append(["del_space", mi, draw(st.sampled_from(["B", "C"]))])
         elif k == 15:
             ops.append(["close", mi])
+        elif k == 17:
+            # two values asked into one workbook (every pairing of unnamed / named / default-named sheets),
+            # then written and read back
+            vs = draw(st.permutations([0, 1, 2, 3]))
+            ns = draw(st.permutations(NAMES))
+            for j in range(2):
+                ops.append(["new_pandas", mi, draw(st.sampled_from(["A", "C", ""])), ns[j], "book.xlsx", vs[j],
+                            draw(st.sampled_from(SHEETS))])
+            ops.append(["roundtrip", mi])
         else:
             ops.append(["roundtrip", mi])
     return {"ops": ops, "nmodels": nmodels}
